@@ -133,6 +133,10 @@ PROPS = {
             {"crate": "c12", "kind": "complete", "harnesses": C12_WIDE, "tiers": ("thorough",), "jobs": 4,
              "bound": "none: full-domain symbolic input, loops unrolled to operand width with unwinding assertions"},
         ],
+        "native": [
+            {"name": "roundtrip_types_not_under_contract", "bin": "replay_c12", "crate": "replay", "tiers": ("quick", "thorough"),
+             "bound": "exhaustive 8/16-bit integers, every 7-bit varint boundary +-1 and 64 seeded values per wider width, nested through the generic constructors; String/PathBuf, BTree*/Hash*/VecDeque/LinkedList, SmallVec, BitVec (5 storage types x 2 bit orders x 17 lengths x 3 head offsets), derive fixtures: decode(encode(v)) == v and exact consumption, on the real crate with the optional features on"},
+        ],
         "witness": witness.c12,
         "assumptions": [
             "integers in Verus specifications are mathematical; machine ranges appear explicitly in requires/typing",
